@@ -19,6 +19,7 @@ import (
 	"runtime"
 	"sort"
 	"sync"
+	"sync/atomic"
 	"testing"
 	"time"
 
@@ -47,6 +48,10 @@ type HMsg struct {
 	K    int    `json:"k,omitempty"`
 	Fill int    `json:"fill,omitempty"`
 	Ans  bool   `json:"ans,omitempty"` // the message is an answer (R bit clear): the client-side case
+	// Stream: on a multi-stream (SCTP) connection, the stream the message arrives on. The
+	// association is ONE connection: messages are handled one at a time in arrival order
+	// whatever streams they use.
+	Stream uint16 `json:"stream,omitempty"`
 }
 
 type CConn struct {
@@ -54,6 +59,9 @@ type CConn struct {
 	Msgs    []HMsg `json:"msgs"`
 	Pattern string `json:"pattern"`        // one | bytes | frags
 	Cuts    []int  `json:"cuts,omitempty"` // frags: cut points, permille of the connection's byte stream
+	// SCTP: a multi-stream association (diam.SCTPConn over the in-memory backend, dial path);
+	// every message arrives as one chunk on its HMsg.Stream.
+	SCTP bool `json:"sctp,omitempty"`
 }
 
 type Step struct {
@@ -68,6 +76,20 @@ type Case struct {
 	// WriteTimeoutMs > 0: the accepting Server is configured with that WriteTimeout (a deadline
 	// for writes to the peer; it must not change how handlers are sequenced, however long they run)
 	WriteTimeoutMs int `json:"write_timeout_ms,omitempty"`
+	// NilHandler: Server.Handler is nil and NewConn gets a nil handler: messages go to
+	// diam.DefaultServeMux (handlers registered with diam.HandleFunc).
+	NilHandler bool `json:"nil_handler,omitempty"`
+}
+
+// The handler registered on diam.DefaultServeMux forwards to the running case.
+var defaultTarget atomic.Value // func(diam.Conn, *diam.Message)
+
+func init() {
+	diam.HandleFunc("ALL", func(c diam.Conn, m *diam.Message) {
+		if f, ok := defaultTarget.Load().(func(diam.Conn, *diam.Message)); ok && f != nil {
+			f(c, m)
+		}
+	})
 }
 
 func abstractMsg(conn, seq, fill int, ans bool) gen.Msg {
@@ -96,6 +118,14 @@ func layout(ci int, c *CConn) (frags [][]byte, ends []int) {
 		a := abstractMsg(ci, i+1, m.Fill, m.Ans)
 		stream = append(stream, a.RefBytes()...)
 		ends = append(ends, len(stream))
+	}
+	if c.SCTP { // one chunk per message
+		prev := 0
+		for _, e := range ends {
+			frags = append(frags, stream[prev:e])
+			prev = e
+		}
+		return frags, ends
 	}
 	switch c.Pattern {
 	case "bytes":
@@ -238,6 +268,14 @@ func drive(c *Case, h hooks) *ev.Failure {
 // ---------------------------------------------------------------------------
 // the runner
 
+// transport is what the runner needs from a scripted connection (TCP-like or SCTP).
+type transport struct {
+	Feed       func([]byte)
+	FeedEOF    func()
+	WaitClosed func(time.Duration) bool
+	Close      func()
+}
+
 type event struct {
 	conn, seq int
 	exit      bool
@@ -317,7 +355,7 @@ func runCase(c Case) *ev.Failure {
 	}
 
 	mux := diam.NewServeMux()
-	mux.HandleFunc("ALL", func(_ diam.Conn, m *diam.Message) {
+	handle := func(_ diam.Conn, m *diam.Message) {
 		ci, ok1 := u32(m, codeConn)
 		seq, ok2 := u32(m, codeSeq)
 		if !ok1 || !ok2 || ci < 0 || ci >= n || seq < 1 || seq > len(c.Conns[ci].Msgs) {
@@ -342,7 +380,15 @@ func runCase(c Case) *ev.Failure {
 			<-gates[ci][seq-1]
 		}
 		lg.add(event{conn: ci, seq: seq, exit: true})
-	})
+	}
+	mux.HandleFunc("ALL", handle)
+	var handler diam.Handler = mux
+	reports := mux.ErrorReports()
+	if c.NilHandler {
+		defaultTarget.Store(handle)
+		defer defaultTarget.Store(func(diam.Conn, *diam.Message) {})
+		handler, reports = nil, diam.ErrorReports()
+	}
 	stop := make(chan struct{})
 	var bg sync.WaitGroup
 	bg.Add(1)
@@ -350,7 +396,7 @@ func runCase(c Case) *ev.Failure {
 		defer bg.Done()
 		for {
 			select {
-			case <-mux.ErrorReports():
+			case <-reports:
 			case <-stop:
 				return
 			}
@@ -358,22 +404,36 @@ func runCase(c Case) *ev.Failure {
 	}()
 
 	lis := memnet.NewListener(n + 1)
-	srv := &diam.Server{Handler: mux, Dict: dict.Default, WriteTimeout: time.Duration(c.WriteTimeoutMs) * time.Millisecond}
+	srv := &diam.Server{Handler: handler, Dict: dict.Default, WriteTimeout: time.Duration(c.WriteTimeoutMs) * time.Millisecond}
 	served := make(chan error, 1)
 	go func() { served <- srv.Serve(lis) }()
-	conns := make([]*memnet.Conn, n)
-	for i := range c.Conns {
-		conns[i] = memnet.NewConn()
-		conns[i].Remote = memnet.Addr{Net: "tcp", Str: fmt.Sprintf("10.9.8.%d:40000", i+1)}
-	}
+	conns := make([]transport, n)
 	var fail *ev.Failure
 	for i := range c.Conns {
+		if c.Conns[i].SCTP {
+			be := memnet.NewSCTP()
+			cc := &c.Conns[i]
+			k := 0
+			conns[i] = transport{
+				Feed:       func(b []byte) { be.Feed(memnet.Chunk{Stream: cc.Msgs[k].Stream, Data: b}); k++ },
+				FeedEOF:    be.FeedEOF,
+				WaitClosed: be.WaitClosed,
+				Close:      func() { be.Close() },
+			}
+			if _, err := diam.NewConn(diam.NewVerifSCTPConn(be), "", handler, dict.Default); err != nil && fail == nil {
+				fail = ev.Failf("harness-conn", "NewConn: %v", err)
+			}
+			continue
+		}
+		mc := memnet.NewConn()
+		mc.Remote = memnet.Addr{Net: "tcp", Str: fmt.Sprintf("10.9.8.%d:40000", i+1)}
+		conns[i] = transport{Feed: func(b []byte) { mc.Feed(b) }, FeedEOF: mc.FeedEOF, WaitClosed: mc.WaitClosed, Close: func() { mc.Close() }}
 		if c.Conns[i].Dial {
-			if _, err := diam.NewConn(conns[i], "", mux, dict.Default); err != nil && fail == nil {
+			if _, err := diam.NewConn(mc, "", handler, dict.Default); err != nil && fail == nil {
 				fail = ev.Failf("harness-conn", "NewConn: %v", err)
 			}
 		} else {
-			lis.Push(conns[i])
+			lis.Push(mc)
 		}
 	}
 
@@ -503,9 +563,13 @@ func genCase(t *rapid.T) Case {
 	if rapid.IntRange(0, 3).Draw(t, "write-timeout") == 0 {
 		c.WriteTimeoutMs = rapid.IntRange(1, 20).Draw(t, "write-timeout-ms")
 	}
+	c.NilHandler = rapid.IntRange(0, 4).Draw(t, "nil-handler") == 0
 	nc := rapid.IntRange(1, 4).Draw(t, "conns")
 	for i := 0; i < nc; i++ {
 		cc := CConn{Dial: rapid.Bool().Draw(t, "dial")}
+		if rapid.IntRange(0, 4).Draw(t, "sctp") == 0 {
+			cc.SCTP, cc.Dial = true, true
+		}
 		nm := rapid.IntRange(1, 8).Draw(t, "msgs")
 		for j := 0; j < nm; j++ {
 			m := HMsg{Beh: rapid.SampledFrom([]string{"return", "hold", "gosched", "return", "hold", "sleep", "return", "gosched"}).Draw(t, "beh")}
@@ -519,9 +583,15 @@ func genCase(t *rapid.T) Case {
 				m.Fill = rapid.IntRange(1, 60).Draw(t, "fill")
 			}
 			m.Ans = rapid.IntRange(0, 2).Draw(t, "answer") == 0
+			if cc.SCTP {
+				m.Stream = rapid.SampledFrom([]uint16{0, 0, 1, 2, 7}).Draw(t, "stream")
+			}
 			cc.Msgs = append(cc.Msgs, m)
 		}
 		cc.Pattern = rapid.SampledFrom([]string{"one", "frags", "bytes", "one", "frags"}).Draw(t, "pattern")
+		if cc.SCTP {
+			cc.Pattern = "chunk-per-message"
+		}
 		if cc.Pattern == "frags" {
 			k := rapid.IntRange(1, 6).Draw(t, "ncuts")
 			for j := 0; j < k; j++ {
@@ -555,10 +625,23 @@ func classify(c Case) (bool, []string) {
 		}
 	}
 	add(fmt.Sprintf("conns:%d", len(c.Conns)))
+	if c.NilHandler {
+		add("handler:nil-DefaultServeMux")
+	}
 	burst, hold := false, false
 	for i := range c.Conns {
 		cc := &c.Conns[i]
-		if cc.Dial {
+		if cc.SCTP {
+			add("path:sctp-association")
+			for j := 1; j < len(cc.Msgs); j++ {
+				if cc.Msgs[j].Stream != cc.Msgs[j-1].Stream {
+					add("sctp:consecutive-messages-on-different-streams")
+					if cc.Msgs[j-1].Beh == "hold" {
+						add("sctp:held-handler-then-message-on-another-stream")
+					}
+				}
+			}
+		} else if cc.Dial {
 			add("path:dial")
 		} else {
 			add("path:accept")
@@ -634,7 +717,7 @@ func classify(c Case) (bool, []string) {
 
 var prop = ev.Register(&ev.Prop[Case]{
 	ID: "C08", Name: "dispatch",
-	Rule: "1..4 connections (accept path via Server.Serve on a memnet.Listener and dial path via diam.NewConn, one shared ServeMux), 1..8 numbered messages each, arriving in one segment / one byte at a time / arbitrary fragments, a scripted global interleaving of the fragments, handler behaviours {return, Gosched x k, sleep <= 1 ms, hold until released} and scripted release points; before every release each connection must have reached the point the model 'one handler at a time per connection, connections independent' predicts (bounded wait 5 s), and the enter/exit log of each connection must read enter 1, exit 1, enter 2, ...; non-trivial = >= 2 connections, >= 3 messages inside one segment on one of them and >= 1 held handler",
+	Rule: "1..4 connections (accept path via Server.Serve on a memnet.Listener and dial path via diam.NewConn, or a multi-stream SCTP association over the in-memory backend whose messages arrive one chunk each on streams {0,1,2,7}; one shared ServeMux, or (1 in 5) a nil Handler = diam.DefaultServeMux), 1..8 numbered messages each, arriving in one segment / one byte at a time / arbitrary fragments, a scripted global interleaving of the fragments, handler behaviours {return, Gosched x k, sleep <= 1 ms, hold until released} and scripted release points; before every release each connection must have reached the point the model 'one handler at a time per connection, connections independent' predicts (bounded wait 5 s), and the enter/exit log of each connection must read enter 1, exit 1, enter 2, ...; non-trivial = >= 2 connections, >= 3 messages inside one segment on one of them and >= 1 held handler",
 	Gen:  genCase, Run: runCase, Classify: classify, Attempts: 5,
 })
 
